@@ -92,8 +92,10 @@ def showTEv : TEv → String
 /-- driver state: `none` once the instance has quit -/
 abbrev PSt := Option St
 
-def junkKinds : List String := ["conf", "denied", "comm", "trunc", "badtype"]
-def junkKindsT : List String := ["conf", "denied", "req", "trunc", "badtype"]
+-- pf3 / pf4: a complete message of the expected type with a port-forwarding grant type (no encoding
+-- of its grant data exists: the reader refuses it)
+def junkKinds : List String := ["conf", "denied", "comm", "trunc", "badtype", "pf3", "pf4"]
+def junkKindsT : List String := ["conf", "denied", "req", "trunc", "badtype", "pf3", "pf4"]
 
 def step (st : PSt) : List String → PSt × String
   | ["new"] => (some Principal.init, "ok")
